@@ -190,7 +190,7 @@ fn layout_txn<T: ReadTxn>(h: &Handle, txn: &T, kind: yrs::OffsetKind) -> Option<
         uids.push(vis[p]);
         p += *c as usize;
     }
-    Some(Layout { labels, uids, widths, all })
+    Some(Layout { labels, uids, widths, all, redone: Default::default() })
 }
 
 pub fn record(w: &mut World, r: usize, effects: &[Effect]) {
